@@ -100,9 +100,11 @@ def parse_fields(payload):
     return out
 
 
-def mutate(sim, payload):
+def mutate(sim, payload, prefer=None):
     fields = parse_fields(payload)
     op = sim.choose(10)
+    if prefer is not None and sim.choose(3) == 0:
+        op = prefer
     if op == 9:          # framing: the packet around the message (padding length byte, no payload at all)
         kind = ("no-payload", "padding-255", "padding-covers-payload", "padding-equals-length")[sim.choose(4)]
         if kind == "no-payload":
@@ -194,7 +196,17 @@ def scenario(sim):
     victim_role = ("client", "server")[sim.seed % 2]
     adv_side = "s" if victim_role == "client" else "c"
     banner_case = sim.choose(12) == 0
-    target = sim.choose(45)
+    # a quarter of the runs aims at the first messages (key exchange, EXT_INFO, service accept), where few messages
+    # carry many fields
+    target = sim.choose(45) if sim.choose(4) else sim.choose(9)
+    # one run in four aims at the first message of a given TYPE instead of the k-th message: types that are rare in
+    # a session but rich in fields would otherwise hardly ever be the k-th
+    target_type = None
+    if sim.choose(4) == 0:
+        if adv_side == "s":      # what a server sends
+            target_type = (7, 7, 7, 6, 51, 53, 60, 91, 92, 81, 82, 98, 99, 100, 52, 2, 4, 80)[sim.choose(18)]
+        else:                    # what a client sends
+            target_type = (5, 50, 50, 61, 90, 98, 98, 80, 96, 97, 93, 2, 4, 1)[sim.choose(14)]
     state = {"n": 0, "done": None}
 
     sent = []
@@ -203,14 +215,15 @@ def scenario(sim):
     def mutate_out(pk, payload):
         k = state["n"]
         state["n"] += 1
-        if not banner_case and k == target and state["done"] is None and replay_case and sent:
+        hit = (k == target) if target_type is None else (payload[0] == target_type)
+        if not banner_case and hit and state["done"] is None and replay_case and sent:
             old = sent[sim.choose(len(sent))]
             state["done"] = (old[0], "replayed-before-type-%d" % payload[0])
             sim.fault("mutated_replay-earlier-message")
             return [old, payload]
         sent.append(payload)
-        if not banner_case and k == target and state["done"] is None:
-            new, kind = mutate(sim, payload)
+        if not banner_case and hit and state["done"] is None:
+            new, kind = mutate(sim, payload, prefer=2 if target_type in (7, 53, 51, 6, 5, 50, 98, 80) else None)
             state["done"] = (payload[0], kind)
             sim.fault("mutated_" + kind)
             if isinstance(new, FrameOp):
@@ -280,8 +293,13 @@ def scenario(sim):
             return None
         return box.get("r")
 
-    auth = ("password", "publickey", "interactive", "none")[sim.choose(4)]
-    desc = {"victim": victim_role, "target_message_index": target if not banner_case else "banner", "auth": auth, "kex": kex}
+    auth = ("password", "publickey", "interactive", "none", "publickey")[sim.choose(5)]
+    if target_type == 7 and sim.choose(4):
+        # the server's extension list is only looked at again when an RSA key authenticates
+        auth, ukey = "publickey", ssh.key("rsa2")
+        server.allowed_keys = [ukey]
+    desc = {"victim": victim_role, "target_message_index": ("type-%d" % target_type if target_type is not None else target) if not banner_case else "banner",
+            "auth": auth, "kex": kex}
     session(sim, p, v, auth, ukey)
     ssh.quiesce(sim, [link], (), settle=0.2, limit=20)
     desc["mutated"] = state["done"]
